@@ -700,8 +700,9 @@ def run(index, rep, tier):
                             elif c.func.attr in ("discard", "remove"):
                                 dis.add((norm(c.func.value), c.args[0].value))
                 return add, dis
-            on_add, on_dis = ops(top[0].body)
-            off_add, off_dis = ops(top[0].orelse)
+            _t, on_body, off_body = pos_if(top[0])
+            on_add, on_dis = ops(on_body)
+            off_add, off_dis = ops(off_body)
             nset += 1
             rep.check(on_add == off_dis and bool(on_add), "R09.21", m.qualname, "off-branch does not discard what the on-branch adds", fn_where(m), "%s: on adds %s, off discards the same" % (name, sorted(on_add)),
                       "%s adds %s when switched on but discards %s when switched off: the mode cannot be switched back, so once a CHARSET statement has made `-` a token (or an interleaved matrix has made line ends tokens) it stays one for the rest of the document - a later negative number is read as two tokens" % (m.qualname, sorted(on_add), sorted(off_dis)))
